@@ -119,7 +119,16 @@ def run_pair_counting(q, text, T, cycle=0):
 
 # ------------------------------------------------------------------ generation
 
-def table_params(prefix, rows, slen=2, krange=None, irange=None):
+def concretize(v, domain):
+    """Solver-driven enumeration of a small finite domain: on each path the symbolic value is replaced by the concrete member it equals,
+    so that code which the engine cannot model symbolically (e.g. str() of a tuple) runs on plain Python values."""
+    for d in domain:
+        if v == d:
+            return d
+    raise AssertionError('value outside its enumerated domain')
+
+
+def table_params(prefix, rows, slen=2, krange=None, irange=None, edomain=None, pdomain=('7', 'x')):
     """rows: list of rows, each a string of cell type codes:
        s = str (len <= slen), o = Optional[str], i = int, k = int in [0, krange), d = decimal digit string (1..slen digits), n = None (constant)
     -> (params, bounding pre lines, other pre lines, python expression building the table)"""
@@ -153,6 +162,17 @@ def table_params(prefix, rows, slen=2, krange=None, irange=None):
                 continue
             elif code == 'z':
                 cells.append("'z'")
+                continue
+            elif code == 'e':
+                # int enumerated (by the solver) over a small finite domain and made concrete per path
+                params.append((name, 'int'))
+                pre_b.append('%s in %r' % (name, tuple(edomain)))
+                cells.append('qh.concretize(%s, %r)' % (name, tuple(edomain)))
+                continue
+            elif code == 'p':
+                # one of two concrete strings chosen by a symbolic bool (e.g. a numeric string or a non-numeric "poison")
+                params.append((name, 'bool'))
+                cells.append('(%r if %s else %r)' % (pdomain[1], name, pdomain[0]))
                 continue
             elif code in ('c', 'C'):
                 # string of exactly 1 (c) or 2 (C) arbitrary characters, built from int code points (concrete length: much cheaper)
@@ -196,13 +216,13 @@ def header_params(prefix, spec, hlen):
 
 
 def query_obl(prop, case_name, q, a_rows, b_rows=None, slen=2, krange=None, irange=None, timeout=60, check_sources=False, mutate_output=False,
-              expect='hold', finding=None, extra_pre=None, text=None, tag='', counting=False, cycle=0, ha_spec=None, hb_spec=None, hlen=2):
+              expect='hold', finding=None, extra_pre=None, text=None, tag='', counting=False, cycle=0, ha_spec=None, hb_spec=None, hlen=2, edomain=None):
     """Obligation: for every table of the given shape, real engine == reference on query case `case_name` of property module `prop`."""
-    pa, pb1, po1, texpr = table_params('a', a_rows, slen, krange, irange)
+    pa, pb1, po1, texpr = table_params('a', a_rows, slen, krange, irange, edomain)
     params, pre_b, pre_o = list(pa), list(pb1), list(po1)
     bexpr = 'None'
     if b_rows is not None:
-        pb, pb2, po2, bexpr = table_params('b', b_rows, slen, krange, irange)
+        pb, pb2, po2, bexpr = table_params('b', b_rows, slen, krange, irange, edomain)
         params += pb
         pre_b += pb2
         pre_o += po2
